@@ -657,6 +657,43 @@ def _transitref_rule(chk, prog):
     chk.floor(rule, 2, n)
 
 
+def _closeresult_rule(chk, prog):
+    """What a waiter gets when its channel is closed must not depend on which thread closes it.  A close from the
+    waiter's own thread schedules it directly ([:close chan] for a select clause, nil for a plain take / give); a close
+    from another thread goes through janet_thread_chan_cb, whose CLOSE arm has to make the same distinction."""
+    rule = "C08-CLOSERESULT"
+    chk.rule(rule, "a waiter woken by a close gets the same result whether the closing thread is its own or another one")
+    tu = prog.tus["ev.c"]
+    close = tu.funcs.get("cfun_channel_close")
+    cb = tu.funcs.get("janet_thread_chan_cb")
+    if close is None or cb is None:
+        raise AnalysisBroken("cfun_channel_close / janet_thread_chan_cb not found")
+    chk.analysed(close)
+    chk.analysed(cb)
+    local = len(close.calls("make_close_result"))
+    if local < 2:
+        raise AnalysisBroken("cfun_channel_close: same-thread close results not recognised (%d)" % local)
+    chk.instance(rule)
+    remote = cb.calls("make_close_result")
+    if remote:
+        chk.ok(rule, "janet_thread_chan_cb: a close arriving from another thread can produce [:close chan] as the same-thread path does")
+    else:
+        chk.violation(rule, "ev.c", "janet_thread_chan_cb", "close-result", cb.loc,
+                      "cfun_channel_close gives a select clause [:close chan] when it wakes the waiter itself (%d sites), but "
+                      "janet_thread_chan_cb never builds that result: the same (ev/select tc) returns nil when tc is closed from "
+                      "another thread" % local)
+    # and the message must carry what the call-back needs to tell the two kinds of waiter apart
+    chk.instance(rule)
+    carried = [x for x in close.nodes if x.k == "asg" and x.kids[0].k == "mem" and x.kids[0].field == "argj"
+               and any(y.k == "mem" and y.field == "mode" for y in x.kids[1].walk())]
+    if len(carried) >= 2:
+        chk.ok(rule, "cfun_channel_close: the hand-off message records whether the waiter is a select clause")
+    else:
+        chk.violation(rule, "ev.c", "cfun_channel_close", "close-message", close.loc,
+                      "the close message posted to another thread does not carry the waiter's mode (select clause or plain "
+                      "operation), so the receiving thread cannot produce the right result")
+
+
 _run_locks = run
 
 
@@ -910,6 +947,7 @@ def run(chk):   # noqa
     _atomic_rule(chk, prog)
     _refpair_rule(chk, prog)
     _transitref_rule(chk, prog)
+    _closeresult_rule(chk, prog)
     _msgrec_rule(chk, prog)
     _parkroot_rule(chk, prog)
     _payload_rule(chk, prog)
